@@ -280,9 +280,10 @@ func classify(data []byte) (inside []uint8, cont []bool) {
 // decoding through the real stream decoder
 
 type decoded struct {
-	policies []*cedar.Policy
-	err      error // terminal error (io.EOF on clean end)
-	calls    int
+	afterTerminal bool // Decode changed its answer after the terminal error
+	policies      []*cedar.Policy
+	err           error // terminal error (io.EOF on clean end)
+	calls         int
 }
 
 func decodeAll(r io.Reader, limit int) decoded {
@@ -294,6 +295,14 @@ func decodeAll(r io.Reader, limit int) decoded {
 		out.calls++
 		if err != nil {
 			out.err = err
+			// a finished decoder stays finished: the same terminal result, no further policy
+			for k := 0; k < 2; k++ {
+				var q cedar.Policy
+				if err2 := dec.Decode(&q); err2 == nil || err2.Error() != err.Error() {
+					out.err = fmt.Errorf("harness: Decode after the terminal error %q returned %v", err, err2)
+					out.afterTerminal = true
+				}
+			}
 			return out
 		}
 		pp := p
@@ -561,6 +570,9 @@ func (p Prop) oneSchedule(r *core.Run, doc *document, base decoded, sch schedule
 	rd, cs := makeReader(r.T, doc.data, sch, f, interesting, r.Tracing)
 	got := decodeAll(rd, limit)
 	r.Count("executions")
+	if got.afterTerminal {
+		return core.Violationf("decode-after-terminal", "decode-after-terminal", "%v (reader schedule style=%d fault=%s)", got.err, sch.style, f)
+	}
 	if r.Tracing {
 		r.Logf("schedule style=%d eof=%d fault=%s: %d reads, max room %d", sch.style, sch.eofStyle, f, rd.Calls, rd.MaxRoom)
 		for i, e := range rd.Log {
